@@ -1,17 +1,686 @@
-//! C06 — stub (monitor not written yet)
-use serde_json::Value;
+//! C06 — no input makes the library panic, overflow or fail to terminate.
+//!
+//! Oracle: `catch_unwind` + panic hook around every call (the harness is built with
+//! overflow-checks and debug-assertions), documented panics accepted only where a model says
+//! their precondition holds, and bounded progress: a supervisor thread watches the thread CPU
+//! time of the call in flight on every worker; a call over `CPU_BOUND_S` is reported with the
+//! input that caused it (regenerated from generator id + index).
 
-use super::Fail;
-use crate::obs::{Ctx, Tier};
+use std::borrow::Cow;
+use std::fmt::Debug;
+use std::str::FromStr;
+use std::sync::atomic::{AtomicBool, AtomicU64, Ordering};
 
-pub const RULE: &str = "";
+use purl::qualifiers::well_known::{Checksum, KnownQualifierKey};
+use purl::{GenericPurl, GenericPurlBuilder, PackageType, ParseError, PurlParts, PurlShape, Qualifiers, SmallString};
+use serde_json::{json, Value};
 
-pub fn requirements(_tier: Tier) -> Vec<(&'static str, u64)> {
-    vec![("not-implemented", 1)]
+use super::c11::{self, QOp};
+use super::{str_field, Fail};
+use crate::exec::{self, run_hist};
+use crate::gen;
+use crate::hist::{self, Hist};
+use crate::obs::{self, guard, guard_res, Ctx, Out, Tier};
+use crate::rng::{fnv, Rng};
+use crate::shrink::{shrink_str, shrink_vec};
+
+pub const RULE: &str = "a case is one input (string, builder history, qualifier-collection history, checksum text) on which a group of public calls is executed under catch_unwind; non-trivial = the input is accepted by at least one call of the group (the calls went past validation) or is one of the large inputs; distinct by hash of the input";
+
+/// Bounded-progress restatement of "fails to terminate": thread CPU seconds for the calls on one input <= 1 MiB.
+pub const CPU_BOUND_S: u64 = 120;
+
+pub fn requirements(tier: Tier) -> Vec<(&'static str, u64)> {
+    let q = tier == Tier::Quick;
+    vec![
+        ("strings-exercised", if q { 3_000_000 } else { 50_000_000 }),
+        ("strings-accepted", 500_000),
+        ("large-inputs", 80),
+        ("max:input-bytes", 1_000_000),
+        ("builder-histories", 100_000),
+        ("qualifier-operations", 1_000_000),
+        ("checksum-texts", 100_000),
+        ("documented-panic:index-absent", 1_000),
+        ("documented-panic:typed-key-invalid", 100),
+        ("documented-panic:display-invalid-type", 100),
+        ("empty-checksum-serialised", 100),
+    ]
 }
 
-pub fn run(_ctx: &mut Ctx) {}
+// --- CPU clocks and the supervisor ------------------------------------------------------------
 
-pub fn replay(_monitor: &str, _case: &Value) -> Result<Option<Fail>, String> {
-    Err("not implemented".into())
+pub fn thread_cpu_ns() -> u64 {
+    let mut ts = libc::timespec { tv_sec: 0, tv_nsec: 0 };
+    unsafe {
+        libc::clock_gettime(libc::CLOCK_THREAD_CPUTIME_ID, &mut ts);
+    }
+    ts.tv_sec as u64 * 1_000_000_000 + ts.tv_nsec as u64
+}
+
+fn cpu_ns_of_thread(t: u64) -> Option<u64> {
+    let mut cid: libc::clockid_t = 0;
+    let mut ts = libc::timespec { tv_sec: 0, tv_nsec: 0 };
+    unsafe {
+        if libc::pthread_getcpuclockid(t as libc::pthread_t, &mut cid) != 0 {
+            return None;
+        }
+        if libc::clock_gettime(cid, &mut ts) != 0 {
+            return None;
+        }
+    }
+    Some(ts.tv_sec as u64 * 1_000_000_000 + ts.tv_nsec as u64)
+}
+
+const MAXW: usize = 64;
+#[allow(clippy::declare_interior_mutable_const)]
+const Z: AtomicU64 = AtomicU64::new(0);
+static THREADS: [AtomicU64; MAXW] = [Z; MAXW];
+static GEN_ID: [AtomicU64; MAXW] = [Z; MAXW];
+static GEN_IDX: [AtomicU64; MAXW] = [Z; MAXW];
+static START_CPU: [AtomicU64; MAXW] = [Z; MAXW];
+static DONE: AtomicBool = AtomicBool::new(false);
+static SUPERVISOR: std::sync::Once = std::sync::Once::new();
+
+pub const GEN_G1: u64 = 1;
+pub const GEN_G10: u64 = 2;
+pub const GEN_SOUP: u64 = 3;
+pub const GEN_LARGE: u64 = 4;
+pub const GEN_HIST: u64 = 5;
+pub const GEN_QUAL: u64 = 6;
+pub const GEN_CS: u64 = 7;
+
+fn watch(worker: usize, gen_id: u64, idx: u64) {
+    if worker < MAXW {
+        GEN_IDX[worker].store(idx, Ordering::Relaxed);
+        START_CPU[worker].store(thread_cpu_ns(), Ordering::Relaxed);
+        GEN_ID[worker].store(gen_id, Ordering::Release);
+    }
+}
+
+fn unwatch(worker: usize) {
+    if worker < MAXW {
+        GEN_ID[worker].store(0, Ordering::Release);
+    }
+}
+
+fn start_supervisor(seed: u64, tier: Tier, nworkers: usize) {
+    SUPERVISOR.call_once(|| {
+        std::thread::spawn(move || loop {
+            std::thread::sleep(std::time::Duration::from_millis(500));
+            if DONE.load(Ordering::Relaxed) {
+                return;
+            }
+            for w in 0..nworkers.min(MAXW) {
+                let g = GEN_ID[w].load(Ordering::Acquire);
+                let t = THREADS[w].load(Ordering::Relaxed);
+                if g == 0 || t == 0 {
+                    continue;
+                }
+                let idx = GEN_IDX[w].load(Ordering::Relaxed);
+                let start = START_CPU[w].load(Ordering::Relaxed);
+                let Some(now) = cpu_ns_of_thread(t) else { continue };
+                if GEN_ID[w].load(Ordering::Acquire) != g || GEN_IDX[w].load(Ordering::Relaxed) != idx {
+                    continue;
+                }
+                if now.saturating_sub(start) > CPU_BOUND_S * 1_000_000_000 {
+                    // report and leave: the worker cannot be cancelled
+                    let case = json!({"kind": "regen", "gen": g, "idx": idx, "seed": seed, "worker": w, "nworkers": nworkers, "tier": if tier == Tier::Quick { "quick" } else { "thorough" }});
+                    println!("C06-CPU-BOUND {}", case);
+                    std::process::exit(3);
+                }
+            }
+        });
+    });
+}
+
+// --- exercising one string --------------------------------------------------------------------
+
+fn note(fail: &mut Option<Fail>, what: &str, input: &str, o: &str) {
+    if fail.is_none() {
+        let short: String = input.chars().take(120).collect();
+        let loc = o.rsplit(" @ ").next().unwrap_or("?").to_string();
+        *fail = Some(Fail::tagged("panicked", loc, format!("{what} on {short:?}{}: {o}", if input.len() > short.len() { " (truncated)" } else { "" })));
+    }
+}
+
+fn exercise_value<T>(p: &GenericPurl<T>, input: &str, fail: &mut Option<Fail>)
+where
+    T: PurlShape + Clone + PartialEq + Debug,
+    T::Error: Debug,
+{
+    if let Out::Panic(m) = obs::show(p) {
+        note(fail, "to_string()", input, &m);
+    }
+    if let Out::Panic(m) = guard("Debug", || format!("{p:?}").len()) {
+        note(fail, "Debug", input, &m);
+    }
+    match guard_res("into_builder().build()", || p.clone().into_builder().build()) {
+        Out::Panic(m) => note(fail, "into_builder().build()", input, &m),
+        Out::Ok(q) => {
+            if let Out::Panic(m) = guard("PartialEq", || q == *p) {
+                note(fail, "==", input, &m);
+            }
+        },
+        _ => {},
+    }
+    let q = p.qualifiers();
+    if let Out::Panic(m) = guard("qualifiers walk", || {
+        let mut n = 0usize;
+        for (k, v) in q.iter().rev() {
+            n += k.len() + v.len();
+            let _ = q.get(k.as_str());
+            let _ = q.contains_key(k.to_ascii_uppercase());
+        }
+        if let Ok(Some(cs)) = q.try_get_typed::<Checksum>() {
+            for (a, v) in cs.iter() {
+                n += a.len() + v.raw().len();
+                let _ = v.decode::<Vec<u8>>();
+                let _ = cs.get_raw(a);
+            }
+            let _ = SmallString::try_from(cs);
+        }
+        n
+    }) {
+        note(fail, "qualifier accessors", input, &m);
+    }
+}
+
+fn exercise_inst<T>(s: &str, fail: &mut Option<Fail>) -> bool
+where
+    T: FromStr + PurlShape + Clone + PartialEq + Debug,
+    <T as PurlShape>::Error: From<<T as FromStr>::Err> + Debug,
+{
+    match obs::parse::<T>(s) {
+        Out::Ok(p) => {
+            exercise_value(&p, s, fail);
+            true
+        },
+        Out::Err(_) => false,
+        Out::Panic(m) => {
+            note(fail, "from_str", s, &m);
+            false
+        },
+    }
+}
+
+/// All parse-side calls on one string. Returns (accepted by some instantiation, failure).
+pub fn exercise_string(s: &str) -> (bool, Option<Fail>) {
+    let mut fail = None;
+    let a = exercise_inst::<String>(s, &mut fail);
+    let b = exercise_inst::<SmallString>(s, &mut fail);
+    let c = match obs::parse::<PackageType>(s) {
+        Out::Ok(p) => {
+            exercise_value(&p, s, &mut fail);
+            if let Out::Panic(m) = guard("combined_name", || p.combined_name().len()) {
+                note(&mut fail, "combined_name()", s, &m);
+            }
+            true
+        },
+        Out::Err(_) => false,
+        Out::Panic(m) => {
+            note(&mut fail, "Purl::from_str", s, &m);
+            false
+        },
+    };
+    // the same text as a combined name, a checksum text, a package type
+    if s.len() < 4096 {
+        if let Out::Panic(m) = guard("builder_with_combined_name", || {
+            for t in exec::ALL_TYPES {
+                let _ = purl::Purl::builder_with_combined_name(t, s).build();
+            }
+        }) {
+            note(&mut fail, "builder_with_combined_name", s, &m);
+        }
+        if let Out::Panic(m) = guard("PackageType::from_str", || PackageType::from_str(s).is_ok()) {
+            note(&mut fail, "PackageType::from_str", s, &m);
+        }
+    }
+    (a || b || c, fail)
+}
+
+// --- checksum texts ---------------------------------------------------------------------------
+
+pub fn exercise_checksum_text(text: &str) -> Option<Fail> {
+    let mut fail = None;
+    match guard_res("Checksum::try_from(&str)", || Checksum::try_from(text)) {
+        Out::Panic(m) => note(&mut fail, "Checksum::try_from", text, &m),
+        Out::Ok(cs) => {
+            if let Out::Panic(m) = guard("Checksum accessors", || {
+                let mut n = 0;
+                for (a, v) in cs.iter() {
+                    n += v.raw().len();
+                    let _ = v.decode::<Vec<u8>>();
+                    let _ = v.decode::<[u8; 4]>();
+                    let _ = cs.get::<Vec<u8>>(a);
+                    let _ = cs.get_value(a).map(|x| x.len());
+                }
+                for a in cs.algorithms() {
+                    n += a.len();
+                }
+                let mut c2 = cs.clone();
+                c2.insert_raw(text, text.to_string());
+                c2.insert(text, text.as_bytes());
+                c2.remove(text);
+                let _ = SmallString::try_from(c2);
+                let _ = SmallString::try_from(cs.clone());
+                n
+            }) {
+                note(&mut fail, "Checksum accessors", text, &m);
+            }
+        },
+        Out::Err(_) => {},
+    }
+    fail
+}
+
+// --- documented panics ------------------------------------------------------------------------
+
+struct BadKey<'a>(&'a str);
+
+impl KnownQualifierKey for BadKey<'_> {
+    const KEY: &'static str = "not a valid key!";
+}
+
+impl<'a> From<BadKey<'a>> for SmallString {
+    fn from(v: BadKey<'a>) -> Self {
+        SmallString::from(v.0)
+    }
+}
+
+struct GoodKey<'a>(&'a str);
+
+impl KnownQualifierKey for GoodKey<'_> {
+    const KEY: &'static str = "Good.Key-1_x";
+}
+
+impl<'a> From<GoodKey<'a>> for SmallString {
+    fn from(v: GoodKey<'a>) -> Self {
+        SmallString::from(v.0)
+    }
+}
+
+struct BadType;
+
+impl PurlShape for BadType {
+    type Error = ParseError;
+
+    fn package_type(&self) -> Cow<str> {
+        Cow::Borrowed("bad type")
+    }
+
+    fn finish(&mut self, _parts: &mut PurlParts) -> Result<(), Self::Error> {
+        Ok(())
+    }
+}
+
+/// The three documented panics happen exactly when documented.
+fn documented_panics(ctx: &mut Ctx, r: &mut Rng) {
+    let v = gen::mixed_string(r, 0, 8, 50);
+    // typed qualifier with an invalid declared key: panics; with a valid one: does not
+    let mut q = Qualifiers::default();
+    match guard("insert_typed(invalid KEY)", || q.insert_typed(BadKey(&v))) {
+        Out::Panic(_) => ctx.st.count("documented-panic:typed-key-invalid"),
+        o => ctx.st.violation("C06.panic", "C06.panic:documented-panic-missing:insert_typed".into(), format!("insert_typed with an invalid KEY returned {}", o.kind()), json!({"kind": "documented"})),
+    }
+    let b = GenericPurlBuilder::new("t".to_string(), "n");
+    match guard("with_typed_qualifier(invalid KEY)", || b.with_typed_qualifier(Some(BadKey(&v))).parts.qualifiers.len()) {
+        Out::Panic(_) => ctx.st.count("documented-panic:typed-key-invalid"),
+        o => ctx.st.violation("C06.panic", "C06.panic:documented-panic-missing:with_typed_qualifier".into(), format!("with_typed_qualifier with an invalid KEY returned {}", o.kind()), json!({"kind": "documented"})),
+    }
+    let mut q = Qualifiers::default();
+    if let Out::Panic(m) = guard("insert_typed(valid KEY)", || {
+        q.insert_typed(GoodKey(&v));
+        q.remove_typed::<GoodKey>();
+        q.contains_typed::<GoodKey>()
+    }) {
+        ctx.st.violation("C06.panic", "C06.panic:panicked:insert_typed-valid-key".into(), format!("insert_typed with a valid KEY panicked: {m}"), json!({"kind": "documented"}));
+    }
+    // Display of a user shape reporting an invalid type: panics (documented); everything else on it does not
+    match obs::build(GenericPurlBuilder::new(BadType, v.as_str()).with_version(v.as_str())) {
+        Out::Ok(p) => {
+            match obs::show(&p) {
+                Out::Panic(_) => ctx.st.count("documented-panic:display-invalid-type"),
+                o => ctx.st.violation("C06.panic", "C06.panic:documented-panic-missing:display".into(), format!("Display of a PURL whose shape reports an invalid type returned {}", o.kind()), json!({"kind": "documented"})),
+            }
+            if let Out::Panic(m) = guard("accessors of invalid-type PURL", || p.name().len() + p.version().map_or(0, str::len) + p.qualifiers().len()) {
+                ctx.st.violation("C06.panic", "C06.panic:panicked:accessors-invalid-type".into(), m, json!({"kind": "documented"}));
+            }
+        },
+        Out::Err(_) => {},
+        Out::Panic(m) => ctx.st.violation("C06.panic", "C06.panic:panicked:build-invalid-type".into(), m, json!({"kind": "documented"})),
+    }
+}
+
+// --- builder and collection histories ----------------------------------------------------------
+
+fn exercise_hist<'a, T>(h: &'a Hist, mk: &dyn Fn(&'a str) -> Option<T>) -> Option<Fail>
+where
+    T: PurlShape + Clone + PartialEq + Debug,
+    T::Error: Debug,
+{
+    let run = run_hist(h, mk)?;
+    if let Some(p) = run.panic {
+        let loc = p.rsplit(" @ ").next().unwrap_or("?").to_string();
+        return Some(Fail::tagged("panicked", loc, format!("a builder call of {h:?} panicked: {p}")));
+    }
+    let mut fail = None;
+    match obs::build(run.builder?) {
+        Out::Ok(p) => exercise_value(&p, &format!("{h:?}"), &mut fail),
+        Out::Panic(m) => note(&mut fail, "build()", &format!("{h:?}"), &m),
+        Out::Err(_) => {},
+    }
+    fail
+}
+
+pub fn exercise_hist_all(h: &Hist, typed: bool) -> Option<Fail> {
+    if typed {
+        return exercise_hist::<PackageType>(h, &exec::mk_typed);
+    }
+    exercise_hist::<String>(h, &exec::mk_string)
+        .or_else(|| exercise_hist::<SmallString>(h, &exec::mk_small))
+        .or_else(|| exercise_hist::<Cow<str>>(h, &exec::mk_cow_owned))
+        .or_else(|| exercise_hist::<Cow<str>>(h, &exec::mk_cow_borrowed))
+}
+
+/// Qualifier history: only panics matter here; an `Index`/`IndexMut` panic is the documented
+/// one exactly when the reference map says the key is absent or invalid.
+pub fn exercise_qops(ops: &[QOp]) -> (u64, Option<Fail>) {
+    let mut q = Qualifiers::default();
+    let mut m = std::collections::BTreeMap::new();
+    let mut documented = 0;
+    for op in ops {
+        let want = c11::apply_model(&mut m, op);
+        match guard("Qualifiers op", || c11::apply_real(&mut q, op)) {
+            Out::Panic(p) => {
+                let is_index = matches!(op, QOp::Index(_) | QOp::IndexMut(..));
+                if is_index && want == "PANIC" && p.starts_with("Qualifier ") {
+                    documented += 1;
+                } else {
+                    let loc = p.rsplit(" @ ").next().unwrap_or("?").to_string();
+                    return (documented, Some(Fail::tagged("panicked", loc, format!("{op:?} panicked: {p} (model result: {want})"))));
+                }
+            },
+            _ => {
+                if want == "PANIC" {
+                    return (documented, Some(Fail::tagged("documented-panic-missing", "index", format!("{op:?} on an absent key returned instead of panicking"))));
+                }
+            },
+        }
+    }
+    (documented, None)
+}
+
+// --- regenerating an input from (generator, index) ---------------------------------------------
+
+fn g10_string(seed: u64, worker: usize, idx: u64, corpus: &[String]) -> String {
+    let mut r = Rng::stream(seed, worker as u64, "c06.g10");
+    let mut s = String::new();
+    for _ in 0..=idx {
+        s = gen::mutate(&mut r, corpus);
+    }
+    s
+}
+
+fn soup_string(seed: u64, worker: usize, idx: u64) -> String {
+    let mut r = Rng::stream(seed, worker as u64, "c06.soup");
+    let mut s = String::new();
+    for _ in 0..=idx {
+        s = gen::escape_soup(&mut r);
+    }
+    s
+}
+
+fn large_catalogue() -> Vec<(String, String)> {
+    let mut v = Vec::new();
+    for size in [64 << 10, 256 << 10, 1 << 20] {
+        for (name, s) in gen::large_inputs(size) {
+            v.push((format!("{name}@{}KiB", size >> 10), s));
+        }
+    }
+    v
+}
+
+// --- run ----------------------------------------------------------------------------------------
+
+fn string_case(ctx: &mut Ctx, s: &str, gen_id: u64, idx: u64) {
+    watch(ctx.worker, gen_id, idx);
+    let t0 = thread_cpu_ns();
+    let (accepted, f) = exercise_string(s);
+    let cpu = thread_cpu_ns() - t0;
+    unwatch(ctx.worker);
+    ctx.st.evaluations += 1;
+    ctx.st.count("strings-exercised");
+    ctx.st.max("max:input-bytes", s.len() as u64);
+    ctx.st.max("max:cpu-ms-for-one-input", cpu / 1_000_000);
+    if accepted {
+        ctx.st.count("strings-accepted");
+        ctx.st.nontrivial(fnv(s.as_bytes()));
+        if s.len() < 200 {
+            ctx.st.sample(|| json!({"input": s, "calls": "from_str x3, to_string, Debug, into_builder().build(), ==, qualifier and checksum accessors, combined names", "outcome": "all returned", "thread_cpu_us": cpu / 1000}));
+        }
+    }
+    if cpu > CPU_BOUND_S * 1_000_000_000 {
+        ctx.st.violation(
+            "C06.progress",
+            format!("C06.progress:cpu-bound:{gen_id}"),
+            format!("the calls on one input of {} bytes took {} s of thread CPU time (bound {CPU_BOUND_S} s)", s.len(), cpu / 1_000_000_000),
+            json!({"kind": "regen", "gen": gen_id, "idx": idx, "seed": ctx.seed, "worker": ctx.worker, "nworkers": ctx.nworkers, "tier": if ctx.quick() { "quick" } else { "thorough" }}),
+        );
+    }
+    if let Some(f) = f {
+        let kind = f.kind.clone();
+        let tag = f.tag.clone();
+        let min = if s.len() <= 4096 { shrink_str(s, &mut |c| exercise_string(c).1.map_or(false, |g| g.kind == kind && g.tag == tag)) } else { s.to_string() };
+        let g = exercise_string(&min).1.unwrap_or(f);
+        let case = if min.len() <= 65536 { json!({"kind": "string", "input": min}) } else { json!({"kind": "regen", "gen": gen_id, "idx": idx, "seed": ctx.seed, "worker": ctx.worker, "nworkers": ctx.nworkers, "tier": if ctx.quick() { "quick" } else { "thorough" }}) };
+        ctx.st.violation("C06.panic", format!("C06.panic:{}:{}", g.kind, g.tag), g.detail, case);
+    }
+}
+
+pub fn run(ctx: &mut Ctx) {
+    if ctx.worker < MAXW {
+        THREADS[ctx.worker].store(unsafe { libc::pthread_self() } as u64, Ordering::Relaxed);
+    }
+    start_supervisor(ctx.seed, ctx.tier, ctx.nworkers);
+    // G1 complete
+    let (w, n, quick) = (ctx.worker, ctx.nworkers, ctx.quick());
+    {
+        let mut f = |i: u64, s: &str| string_case(ctx, s, GEN_G1, i);
+        let (total, name) = gen::for_each_g1(quick, w, n, &mut f);
+        if ctx.worker == 0 {
+            ctx.st.exhaustive.push(json!({"name": format!("{name}: parse (3 instantiations), format, debug, rebuild, accessors, combined names"), "size": total, "completed": true}));
+        }
+    }
+    // G10 mutated corpus — the heaviest part
+    let (corpus, src) = gen::load_corpus();
+    ctx.st.set_insert("corpus-source", src.to_string());
+    let mut r = ctx.rng("c06.g10");
+    for i in 0..ctx.share(2_000_000, 50_000_000) {
+        let s = gen::mutate(&mut r, &corpus);
+        string_case(ctx, &s, GEN_G10, i);
+    }
+    let mut r = ctx.rng("c06.soup");
+    for i in 0..ctx.share(500_000, 10_000_000) {
+        let s = gen::escape_soup(&mut r);
+        string_case(ctx, &s, GEN_SOUP, i);
+    }
+    // G11 large inputs (catalogue distributed over the workers)
+    for (i, (name, s)) in large_catalogue().into_iter().enumerate() {
+        if !ctx.mine(i as u64) {
+            continue;
+        }
+        ctx.st.count("large-inputs");
+        let t0 = thread_cpu_ns();
+        string_case(ctx, &s, GEN_LARGE, i as u64);
+        let ms = (thread_cpu_ns() - t0) / 1_000_000;
+        ctx.st.dyn_counters.insert(format!("large-input-cpu-ms:{name}"), ms);
+        ctx.st.nontrivial(fnv(name.as_bytes()));
+    }
+    // builder histories on every type parameter
+    let mut r = ctx.rng("c06.g4");
+    for i in 0..ctx.share(120_000, 4_000_000) {
+        let typed = i % 3 == 0;
+        let h = hist::rand_hist(&mut r, typed);
+        watch(ctx.worker, GEN_HIST, i);
+        let f = exercise_hist_all(&h, typed);
+        unwatch(ctx.worker);
+        ctx.st.evaluations += 1;
+        ctx.st.count("builder-histories");
+        if let Some(f) = f {
+            let (kind, tag) = (f.kind.clone(), f.tag.clone());
+            let calls = shrink_vec(&h.calls, &mut |cs| {
+                let hh = Hist { ty: h.ty.clone(), name: h.name.clone(), calls: cs.to_vec() };
+                exercise_hist_all(&hh, typed).map_or(false, |g| g.kind == kind && g.tag == tag)
+            });
+            let hh = Hist { ty: h.ty.clone(), name: h.name.clone(), calls };
+            let g = exercise_hist_all(&hh, typed).unwrap_or(f);
+            ctx.st.violation("C06.panic", format!("C06.panic:{}:{}", g.kind, g.tag), g.detail, json!({"kind": "history", "typed": typed, "history": hh}));
+        }
+        if i % 64 == 0 {
+            documented_panics(ctx, &mut r);
+        }
+    }
+    // qualifier-collection histories with hostile keys and values
+    let mut r = ctx.rng("c06.g5");
+    for i in 0..ctx.share(20_000, 600_000) {
+        let pool: Vec<String> = (0..r.range(1, 5)).map(|_| crate::spell::gen_key(&mut r)).collect();
+        let n = r.range(10, 120);
+        let ops: Vec<QOp> = (0..n).map(|_| c11_rand_op(&mut r, &pool)).collect();
+        watch(ctx.worker, GEN_QUAL, i);
+        let (documented, f) = exercise_qops(&ops);
+        unwatch(ctx.worker);
+        ctx.st.evaluations += 1;
+        ctx.st.add("qualifier-operations", ops.len() as u64);
+        ctx.st.add("documented-panic:index-absent", documented);
+        if let Some(f) = f {
+            let (kind, tag) = (f.kind.clone(), f.tag.clone());
+            let min = shrink_vec(&ops, &mut |cs| exercise_qops(cs).1.map_or(false, |g| g.kind == kind && g.tag == tag));
+            let g = exercise_qops(&min).1.unwrap_or(f);
+            ctx.st.violation("C06.panic", format!("C06.panic:{}:{}", g.kind, g.tag), g.detail, json!({"kind": "qops", "ops": min}));
+        }
+    }
+    // checksum texts: arbitrary, structured, empty
+    let mut r = ctx.rng("c06.cs");
+    for i in 0..ctx.share(120_000, 4_000_000) {
+        let text = match r.below(5) {
+            0 => gen::mixed_string(&mut r, 0, 30, 60),
+            1 => String::new(),
+            2 => {
+                let n = r.below(6);
+                (0..n).map(|_| format!("{}:{}", gen::mixed_string(&mut r, 0, 5, 40), gen::mixed_string(&mut r, 0, 8, 10))).collect::<Vec<_>>().join(",")
+            },
+            _ => {
+                let e = crate::spell::gen_checksum(&mut r, 6);
+                e.iter().map(|(a, b)| format!("{a}:{}", hex::encode(b))).collect::<Vec<_>>().join(",")
+            },
+        };
+        watch(ctx.worker, GEN_CS, i);
+        let f = exercise_checksum_text(&text);
+        unwatch(ctx.worker);
+        ctx.st.evaluations += 1;
+        ctx.st.count("checksum-texts");
+        if i % 8 == 0 {
+            // the empty typed checksum: serialise, remove from, iterate, put into a builder
+            match guard("empty Checksum", || {
+                let mut c = Checksum::default();
+                c.remove("sha1");
+                let n = c.iter().count() + c.algorithms().count();
+                let t = SmallString::try_from(c.clone()).map(|t| t.len());
+                let b = GenericPurlBuilder::new("t".to_string(), "n").try_with_typed_qualifier(Some(c)).map(|b| b.build().map(|p| p.to_string()));
+                (n, t.is_ok(), b.is_ok())
+            }) {
+                Out::Panic(m) => {
+                    let loc = m.rsplit(" @ ").next().unwrap_or("?").to_string();
+                    ctx.st.violation("C06.panic", format!("C06.panic:panicked:{loc}"), format!("operations on Checksum::default() panicked: {m}"), json!({"kind": "empty-checksum"}));
+                },
+                _ => ctx.st.count("empty-checksum-serialised"),
+            }
+        }
+        if let Some(f) = f {
+            let (kind, tag) = (f.kind.clone(), f.tag.clone());
+            let min = shrink_str(&text, &mut |c| exercise_checksum_text(c).map_or(false, |g| g.kind == kind && g.tag == tag));
+            let g = exercise_checksum_text(&min).unwrap_or(f);
+            ctx.st.violation("C06.panic", format!("C06.panic:{}:{}", g.kind, g.tag), g.detail, json!({"kind": "checksum-text", "input": min}));
+        }
+    }
+    if ctx.worker == 0 {
+        ctx.st.set_insert("cpu-bound-seconds", CPU_BOUND_S.to_string());
+    }
+}
+
+fn c11_rand_op(r: &mut Rng, pool: &[String]) -> QOp {
+    // hostile variant of C11's generator: keys and values from the hostile pool more often
+    let k = if r.chance(1, 3) { gen::mixed_string(r, 0, 6, 70) } else { r.pick(pool).clone() };
+    let v = gen::mixed_string(r, 0, 10, 50);
+    match r.below(16) {
+        0..=2 => QOp::Insert(k, v),
+        3 => QOp::Remove(k),
+        4 => QOp::Index(k),
+        5 => QOp::IndexMut(k, v),
+        6 => QOp::EntryOrInsert(k, v),
+        7 => QOp::EntryAndModifyOrInsert(k, v.clone(), v),
+        8 => QOp::OccRemoveEntry(k),
+        9 => QOp::VacInsert(k, v),
+        10 => QOp::TryInsertChecksum(hist::rand_cs_entries(r)),
+        11 => QOp::TryGetChecksum,
+        12 => QOp::IterInterleaved(r.next() as u32),
+        13 => QOp::RetainMut(c11::Pred::KeyNe(k), v),
+        14 => QOp::TryFromIter((0..r.below(5)).map(|_| (gen::mixed_string(r, 0, 4, 30), gen::mixed_string(r, 0, 4, 30))).collect()),
+        _ => QOp::GetMut(k, v),
+    }
+}
+
+pub fn replay(_monitor: &str, case: &Value) -> Result<Option<Fail>, String> {
+    match str_field(case, "kind")? {
+        "string" => Ok(exercise_string(str_field(case, "input")?).1),
+        "regen" => {
+            let g = case.get("gen").and_then(|v| v.as_u64()).ok_or("no gen")?;
+            let idx = case.get("idx").and_then(|v| v.as_u64()).ok_or("no idx")?;
+            let seed = case.get("seed").and_then(|v| v.as_u64()).unwrap_or(1);
+            let worker = case.get("worker").and_then(|v| v.as_u64()).unwrap_or(0) as usize;
+            let nworkers = case.get("nworkers").and_then(|v| v.as_u64()).unwrap_or(16) as usize;
+            let quick = case.get("tier").and_then(|v| v.as_str()) != Some("thorough");
+            let s = match g {
+                GEN_G1 => {
+                    let mut found = None;
+                    let mut f = |i: u64, s: &str| {
+                        if i == idx {
+                            found = Some(s.to_string());
+                        }
+                    };
+                    gen::for_each_g1(quick, worker, nworkers, &mut f);
+                    found.ok_or("index not in the token language")?
+                },
+                GEN_G10 => g10_string(seed, worker, idx, &gen::load_corpus().0),
+                GEN_SOUP => soup_string(seed, worker, idx),
+                GEN_LARGE => large_catalogue().into_iter().nth(idx as usize).map(|x| x.1).ok_or("no such large input")?,
+                _ => return Err("only string generators can be regenerated; re-run the check".into()),
+            };
+            let t0 = thread_cpu_ns();
+            let (_, f) = exercise_string(&s);
+            let cpu = (thread_cpu_ns() - t0) / 1_000_000_000;
+            if cpu > CPU_BOUND_S {
+                return Ok(Some(Fail::tagged("cpu-bound", "", format!("{} bytes took {cpu} s of thread CPU time", s.len()))));
+            }
+            Ok(f)
+        },
+        "history" => {
+            let h: Hist = serde_json::from_value(case.get("history").cloned().unwrap_or(Value::Null)).map_err(|e| e.to_string())?;
+            Ok(exercise_hist_all(&h, case.get("typed").and_then(|v| v.as_bool()).unwrap_or(false)))
+        },
+        "qops" => {
+            let ops: Vec<QOp> = serde_json::from_value(case.get("ops").cloned().unwrap_or(Value::Null)).map_err(|e| e.to_string())?;
+            Ok(exercise_qops(&ops).1)
+        },
+        "checksum-text" => Ok(exercise_checksum_text(str_field(case, "input")?)),
+        "empty-checksum" => Ok(match guard("empty Checksum", || SmallString::try_from(Checksum::default()).map(|t| t.len())) {
+            Out::Panic(m) => Some(Fail::new("panicked", m)),
+            _ => None,
+        }),
+        "documented" => Ok(None),
+        o => Err(format!("unknown case kind {o}")),
+    }
+}
+
+pub fn finish() {
+    DONE.store(true, Ordering::Relaxed);
 }
